@@ -325,11 +325,12 @@ func dominatedByEqGlobal(ins ssa.Instruction, target *ssa.Alloc, g *ssa.Global, 
 				continue
 			}
 			cond, truth, ok := core.IfEdge(id, si)
-			if !ok || !truth {
+			if !ok {
 				continue
 			}
 			be, ok := cond.(*ssa.BinOp)
-			if !ok || be.Op != token.EQL {
+			// the edge on which the two are equal: true edge of ==, false edge of !=
+			if !ok || !((be.Op == token.EQL && truth) || (be.Op == token.NEQ && !truth)) {
 				continue
 			}
 			for _, pair := range [][2]ssa.Value{{be.X, be.Y}, {be.Y, be.X}} {
@@ -451,6 +452,38 @@ func checkConstructorShape(prog *core.Program, r4 *core.RuleRun, c *tplCache) {
 				}
 			}
 			idxOK = z && inc && bound
+		}
+		// `for i := range cache`: index = k+1, k = phi(-1, index), bound k+1 < len(cache)
+		if bo, ok := ia.Index.(*ssa.BinOp); ok && bo.Op == token.ADD {
+			if c1, ok := ssaConstInt(bo.Y); ok && c1 == 1 {
+				if k, ok := bo.X.(*ssa.Phi); ok && k.Block() == loop.Header && len(k.Edges) == 2 {
+					neg, back := false, false
+					for _, e := range k.Edges {
+						if cst, ok := ssaConstInt(e); ok && cst == -1 {
+							neg = true
+						}
+						if e == ssa.Value(bo) {
+							back = true
+						}
+					}
+					bound := false
+					for _, ref := range referrers(bo) {
+						if cmp, ok := ref.(*ssa.BinOp); ok && cmp.Op == token.LSS && cmp.X == ssa.Value(bo) {
+							if lc, ok := cmp.Y.(*ssa.Call); ok {
+								if b, ok := lc.Common().Value.(*ssa.Builtin); ok && b.Name() == "len" && lc.Common().Args[0] == ssa.Value(made) {
+									bound = true
+								}
+							}
+							if cmp.Y == made.Len || globalOf(cmp.Y) == shardNoG {
+								bound = true
+							}
+						}
+					}
+					if neg && back && bound {
+						idxOK = true
+					}
+				}
+			}
 		}
 		uncond := true
 		for _, latch := range loop.Latch {
